@@ -200,6 +200,19 @@ def b_select(ex: Exec, node: ast.Call) -> SV:
     return SV(r, a.aux if isinstance(a.aux, T.Ty) else T.ANY)
 
 
+def b_at(ex: Exec, node: ast.Call) -> SV:
+    """at(S, i): the i-th element of a sequence for an index known to be in range
+    (no Python negative-index normalisation: keeps quantified clauses small)."""
+    s = ex.eval(node.args[0])
+    i = ex.eval(node.args[1])
+    st = s.t if s.ty.kind == "raw" else ex.seq(s)
+    ety = (s.aux if isinstance(s.aux, T.Ty) else T.ANY) if s.ty.kind == "raw" else ex.elem_ty(s.ty)
+    if not getattr(ex, "_elt_def", False):
+        ex._elt_def = True
+        ex.assume(S.elt_definition())
+    return ex.typed_nopc(S.nth(st, S.un_int(i.t)), ety)
+
+
 def b_empty_set(ex: Exec, node: ast.Call) -> SV:
     return raw(z3.K(S.Val, z3.BoolVal(False)))
 
@@ -478,8 +491,12 @@ def b_named(ex: Exec, node: ast.Call) -> SV:
     st = s.t if s.ty.kind == "raw" else ex.seq(s)
     ety = (s.aux if isinstance(s.aux, T.Ty) else T.ANY) if s.ty.kind == "raw" else ex.elem_ty(s.ty)
     j = z3.Int("j!bn")
-    nm = ex.rd("fld:name", S.un_ref(st[j]))
-    ax = z3.ForAll([j], z3.Implies(z3.And(0 <= j, j < z3.Length(st)), _BYNAME(st, nm) == st[j]))
+    ej = S.ELT(st, j)  # elt(S, j) = S[j] (sorts.elt_definition): a term the axiom can be triggered on
+    nm = ex.rd("fld:name", S.un_ref(ej))
+    ax = z3.ForAll([j], z3.Implies(z3.And(0 <= j, j < z3.Length(st)), _BYNAME(st, nm) == ej), patterns=[ej])
+    if not getattr(ex, "_elt_def", False):
+        ex._elt_def = True
+        ex.assume(S.elt_definition())
     seen = ex.__dict__.setdefault("_byname_axioms", set())
     if ax.get_id() not in seen:
         seen.add(ax.get_id())
@@ -525,6 +542,7 @@ _TABLE = {
     "vals": b_vals,
     "store": b_store,
     "select": b_select,
+    "at": b_at,
     "empty_set": b_empty_set,
     "empty_seq": b_empty_seq,
     "fresh": b_fresh,
